@@ -72,4 +72,10 @@ META = {
   "note": "Trusts the canonical renderers in harness/c03; both endpoints are the library itself, so wire-format legality is judged elsewhere (C01/C18).",
   "technique": "property-based testing (rapid): round-trip of generated response plans through real server writers and real client",
  },
+ "C18": {
+  "text": "Generated client calls with hostile strings against a scripted server that owns the capability set and the timing/decision of every continuation request; the client's byte stream is judged by an independent framer/tokenizer against the advertised capabilities. Sampling, not proof; the schedule dimension is limited to 'answer immediately' vs 'answer after observed silence'.",
+  "design_ref": "DESIGN.md 3/C18",
+  "note": "Trusts kit/script framing and kit/tok; timing of '+' relative to client writes is sampled at two points only.",
+  "technique": "property-based testing (rapid) with scripted peer and independent tokenizer oracle",
+ },
 }
